@@ -703,6 +703,11 @@ def main():
             if k == 7:
                 ck.sample({"writer_model": {"sequence": seq[:40], "plan": plan[:300], "lean": a[:120]}})
         wm["distinct_plans"] = len(plans_seen)
+        rej = {k_: v_ for k_, v_ in ck.counters.items() if k_.startswith("plan_of_rejected_stream_")}
+        if rej:
+            # diagnosis of the violations reported by section 1: an ill-formed plan points at the search half of the encoder,
+            # a well-formed plan with other bytes than the model's at its writing half
+            ck.notes.append("streams rejected by the Spec, by what the writer model says about their plan: " + json.dumps(rej))
         for pl in plans_seen:
             nontrivial.add(("plan", pl))
 
